@@ -724,7 +724,9 @@ impl Sys {
         let spec = ConnectSpec {
             client_id: Some("flavoured".into()),
             keep_alive: Some(10),
-            receive_maximum: Some(2),
+            // (the client's own Receive Maximum binds the BROKER: 2 where the scenario's broker never has
+            // more than two QoS>0 deliveries open at once, params.own_rm where it has)
+            receive_maximum: Some(self.params["own_rm"].as_u64().unwrap_or(2) as u16),
             // (large enough for everything the scenarios' brokers send: a client may enforce its own
             // limits on inbound traffic; small enough to sit below the bigger requests of C12 / C06)
             maximum_packet_size: Some(2000),
